@@ -16,6 +16,7 @@ In-repo obligations (csv / json / tabulator / tableschema are dependencies: T5, 
 """
 from contracts.common import Item, mk_resource, expect_no_raise_or_same, _b
 from contracts import dumpers as DM
+from contracts import C16 as K16
 from contracts.streams import calls, effect_names
 
 F = 'dataflows/processors/dumpers/formats/'
@@ -339,7 +340,7 @@ def nat_roundtrip(h):
                 r = {'a_int': h.rng.choice([0, -5, 10 ** 12, None]),
                      'b_num': h.rng.choice([decimal.Decimal('1.10'), decimal.Decimal('-0.000001'), decimal.Decimal('12345678901234.5'), None])
                      if fmt == 'csv' else h.rng.choice([decimal.Decimal('1.5'), decimal.Decimal('-2.25'), None]),
-                     'c_str': h.rng.choice(['x', 'a,b', 'q"uo"te', 'two\nlines', '😀é', "it's", 'None']),
+                     'c_str': h.rng.choice(['x', 'a,b', 'q"uo"te', 'two\nlines', '😀é', "it's", 'None', ' padded ', '\ttab', 'trailing newline\n', ' ']),
                      'd_bool': h.rng.choice([True, False, None]),
                      'e_date': h.rng.choice([datetime.date(2020, 2, 29), datetime.date(1999, 12, 31), None]),
                      'f_time': datetime.time(h.rng.randint(0, 23), 59, 1),
@@ -489,6 +490,7 @@ ITEMS = [
     Item('JSONFormat.framing', sym_json_framing, [], F + 'format_json.py::JSONFormat.write_transformed_row'),
     Item('FileDumper.rows_processor', DM.sym_rows_processor, [], DM.D + 'file_dumper.py::FileDumper.rows_processor'),
     Item('DumperBase.insert_hash_in_path', DM.sym_insert_hash_in_path, [], DM.D + 'dumper_base.py::DumperBase.insert_hash_in_path'),
+    Item('load.process_resources', K16.sym_appenders, [], 'dataflows/processors/load.py::load.process_resources'),
     Item('ZipDumper', DM.sym_zip_dumper, [], DM.D + 'to_zip.py::ZipDumper.write_file_to_output'),
     Item('PathDumper.write_file_to_output', DM.sym_write_file_to_output, [], DM.D + 'to_path.py::PathDumper.write_file_to_output'),
 ]
